@@ -281,6 +281,13 @@ class Builder:
         if op == "join":
             jopt = prog[4] if len(prog) > 4 and prog[4] else {}
             p = self.plib(prog[3]) if prog[3] is not None else None
+            if jopt.get("maxc") is not None:
+                # the other public route: an explicit Join operation with max_columns (here always a
+                # superset of the shared key columns, so the meaning is that of Relation.join)
+                j = R.Join(p if p is not None else R.Predicate.literal(True), max_columns=frozenset(T(x) for x in jopt["maxc"]))
+                if jopt.get("partial"):
+                    return j.partial(args[1]).apply(args[0])
+                return j.apply(args[0], args[1])
             return args[0].join(args[1], p, **{k: v for k, v in (("backtrack", jopt.get("bt")), ("transfer", jopt.get("tr"))) if v is not None})
         t = args[0]
         if op == "calc":
